@@ -2,6 +2,7 @@
 // MatrixCreator is defined in net_model.cpp, so that file is #included (the archive member net_model.o is then
 // never pulled in by the linker: every symbol it defines is defined here, from the same source).
 //   quad gen asm SEED COUNT     quad gen solve SEED COUNT     quad gen place SEED COUNT     quad gen fasm SEED COUNT
+//   quad gen placep SEED COUNT (PLACE lines with a parameter tail) / placecb (PLACECB lines)
 //   quad gen coin SEED COUNT (ASM lines) / fcoin (FASM lines) / scoin (SOLVE lines, kinds 1..4): EXACT coincidences of pin positions, see genCoin
 //   quad run < cases
 // A rational is "num e" = num / 2^e (e >= 0, |num| < 2^24): exactly a float.
@@ -31,6 +32,16 @@
 //     double (correctly rounded: 49/100 is the literal 0.49); id 0 = effort of the ColoquinteParameters constructor, the others see
 //     setPlaceParam; penalty.initialValue (id 15) is the BASE strength, still multiplied by the factor.  ColoquinteParameters::check()
 //     is called first: "REJECTED <what>" when it throws (the case is then outside the accepted domain, not a C17 matter)
+// PLACECB nact { cb kind seed }*nact <PLACE body, with or without the parameter tail>      (stream "placecb")
+//   placeGlobal with a callback that does something LEGITIMATE in the middle of the run: at callback number cb (0-based, all step
+//   kinds counted) kind 0 only reads (solution, hpwl), 1 Circuit::setCellWidth (35 % of the movable cells by -2..+3, never below 1,
+//   the movable area kept under 85 % of the free row area), 2 Circuit::setCellHeight (15 % of the movable cells toggled between one
+//   and two row heights, same cap), 3 Circuit::setNetWeights (every net a new weight k/4, k = 1..12, times the factor of the run).
+//   These are the setters the in-use guard (Circuit::checkNotInUse) does not refuse while a placement runs.  What the action does
+//   depends on (seed, current sizes) only, never on the factor.
+//   result: per factor in 1 4 0.125 (net weights, setNetWeights arguments and penalty.initialValue times the factor) the trace of
+//   PLACE with "A<kind> v v ...;" after the callback at which an action fired (the new widths / heights / weights*4), " | " between
+//   the factors; "REJECTED <what>" as for PLACE
 #include "vh.hpp"
 #include <cfenv>
 #include <cmath>
@@ -241,7 +252,11 @@ static void setPlaceParam(ColoquinteParameters &p, int id, double v) {
     default: throw std::runtime_error("unknown PLACE parameter id");
   }
 }
-static void runPlace(Rd &r) {
+static const float kPlaceCbFactors[3] = {1.0f, 4.0f, 0.125f};
+struct CbAct { int cb, kind; uint64_t seed; };
+static void runPlace(Rd &r, bool withActions = false) {
+  std::vector<CbAct> acts;
+  if (withActions) { int na = (int)r.nx(); for (int i = 0; i < na; ++i) { CbAct a; a.cb = (int)r.nx(); a.kind = (int)r.nx(); a.seed = (uint64_t)r.nx(); acts.push_back(a); } }
   int model = (int)r.nx(); int seed = (int)r.nx(); int maxsteps = (int)r.nx();
   int W = (int)r.nx(), nrows = (int)r.nx(), rowh = (int)r.nx(); int nc = (int)r.nx();
   std::vector<int> cw(nc), cx(nc), cy(nc); std::vector<bool> fx(nc);
@@ -252,8 +267,8 @@ static void runPlace(Rd &r) {
   int effort = 3; std::vector<std::pair<int, double>> pv;
   if (r.more()) { int np = (int)r.nx(); for (int i = 0; i < np; ++i) { int id = (int)r.nx(); double n = (double)r.nx(), d = (double)r.nx(); if (id == 0) effort = (int)n; else pv.emplace_back(id, n / d); } }
   std::string out, wts;
-  for (int k = 0; k < 5; ++k) {
-    float f = kPlaceFactors[k];
+  for (int k = 0; k < (withActions ? 3 : 5); ++k) {
+    float f = withActions ? kPlaceCbFactors[k] : kPlaceFactors[k];
     Circuit c(nc);
     c.setCellWidth(cw); c.setCellHeight(std::vector<int>(nc, rowh)); c.setCellX(cx); c.setCellY(cy); c.setCellIsFixed(fx);
     std::vector<Row> rows; for (int i = 0; i < nrows; ++i) rows.emplace_back(0, W, i * rowh, (i + 1) * rowh, i % 2 ? CellOrientation::FS : CellOrientation::N);
@@ -273,7 +288,39 @@ static void runPlace(Rd &r) {
     p.global.penalty.initialValue *= f;
     std::string tr;
     auto dump = [&](char s) { tr += "T"; tr += s; for (int i = 0; i < nc; ++i) { char buf[48]; snprintf(buf, 48, " %d %d", c.cellX()[i], c.cellY()[i]); tr += buf; } tr += ";"; };
-    PlacementCallback cb = [&](PlacementStep st) { dump(st == PlacementStep::LowerBound ? 'L' : st == PlacementStep::UpperBound ? 'U' : st == PlacementStep::PenaltyUpdate ? 'P' : 'D'); };
+    // the legitimate mid-run actions of PLACECB (nothing the in-use guard refuses)
+    auto fire = [&](const CbAct &a) {
+      SplitMix h(a.seed); char buf[48];
+      tr += "A"; tr += (char)('0' + a.kind);
+      if (a.kind == 1 || a.kind == 2) {
+        long long cap = (long long)W * nrows * rowh, area = 0;
+        for (int i = 0; i < nc; ++i) { long long ar = (long long)c.cellWidth()[i] * c.cellHeight()[i]; if (fx[i]) cap -= ar; else area += ar; }
+        std::vector<int> v = a.kind == 1 ? c.cellWidth() : c.cellHeight();
+        for (int i = 0; i < nc; ++i) {
+          if (fx[i]) continue;
+          int nv = v[i]; long long other = a.kind == 1 ? c.cellHeight()[i] : c.cellWidth()[i];
+          if (a.kind == 1) { if (h.coin(35)) nv = std::max(1, v[i] + (int)h.uni(-2, 3)); }
+          else if (h.coin(15)) nv = v[i] == rowh ? 2 * rowh : rowh;
+          if ((area + (nv - v[i]) * other) * 100 <= cap * 85 || nv < v[i]) { area += (nv - v[i]) * other; v[i] = nv; }
+        }
+        if (a.kind == 1) c.setCellWidth(v); else c.setCellHeight(v);
+        for (int x : v) { snprintf(buf, 48, " %d", x); tr += buf; }
+      } else if (a.kind == 3) {
+        std::vector<float> w((size_t)c.nbNets());
+        for (auto &x : w) { int w4 = (int)h.uni(1, 12); x = (float)w4 / 4.0f * f; snprintf(buf, 48, " %d", w4); tr += buf; }
+        c.setNetWeights(w);
+      } else {
+        long long sum = c.hpwl(); for (int i = 0; i < nc; ++i) sum += c.cellX()[i] + c.cellY()[i];
+        if (sum == 0x7fffffffffffffffLL) tr += " ?";      // the reads are not optimised away
+      }
+      tr += ";";
+    };
+    int ncb = 0;
+    PlacementCallback cb = [&](PlacementStep st) {
+      dump(st == PlacementStep::LowerBound ? 'L' : st == PlacementStep::UpperBound ? 'U' : st == PlacementStep::PenaltyUpdate ? 'P' : 'D');
+      for (auto &a : acts) if (a.cb == ncb) fire(a);
+      ++ncb;
+    };
     c.placeGlobal(p, cb);
     dump('F');
     if (k) out += " | ";
@@ -416,13 +463,13 @@ static std::string genCoin(SplitMix &g, bool dyadic, int mode, bool wantPen, boo
 // at the first upper bound and steps with a penalty are taken.  Magnitudes stay moderate (penalty.initialValue in [2^-10, 4], <= 24
 // steps): no overflow in any of the five runs.
 struct PV { long long n, d; };
-static std::string genPlaceP(SplitMix &g) {
+static std::string genPlaceP(SplitMix &g, int tolZeroPct = 50, int minSteps = 1) {   // the defaults: stream "placep" (same draws as before)
   int nrows = (int)g.uni(2, 5), rowh = 8, nc = (int)g.uni(4, 24);
   std::ostringstream s; std::vector<int> w(nc); long long tot = 0;
   for (int c = 0; c < nc; ++c) { w[c] = (int)g.uni(2, 10); tot += w[c]; }
   int W = (int)std::max<long long>(16, tot * (long long)g.uni(14, 30) / 10 / nrows);
   static const int stepsel[] = {1, 2, 3, 4, 6, 9, 12, 16, 24};
-  int maxsteps = stepsel[g.uni(0, 8)];
+  int maxsteps = std::max(minSteps, stepsel[g.uni(0, 8)]);
   s << "PLACE " << g.uni(1, 4) << " " << g.uni(1, 1000) << " " << maxsteps << " " << W << " " << nrows << " " << rowh << " " << nc;
   for (int c = 0; c < nc; ++c) { bool f = g.coin(15); s << " " << w[c] << " " << (f ? 1 : 0) << " " << g.uni(0, std::max(0, W - w[c])) << " " << g.uni(0, nrows - 1) * rowh; }
   int nn = (int)g.uni(nc / 2 + 1, 2 * nc); s << " " << nn;
@@ -435,7 +482,7 @@ static std::string genPlaceP(SplitMix &g) {
   const long long M = 1LL << 20;
   if (g.coin(30)) pick(0, {{1, 1}, {2, 1}, {6, 1}, {9, 1}});                                        // effort
   if (g.coin(60)) pv.push_back({9, {0, 1}}); else if (g.coin(70)) pick(9, {{2, 1}, {1, 1024}, {1, 1}});   // noise in [0, 2]
-  if (g.coin(50)) { pv.push_back({4, {0, 1}}); pv.push_back({5, {0, 1}}); }
+  if (g.coin(tolZeroPct)) { pv.push_back({4, {0, 1}}); pv.push_back({5, {0, 1}}); }
   else { if (g.coin(25)) pick(4, {{0, 1}, {1, 1}, {1, 1024}}); if (g.coin(25)) pick(5, {{0, 1}, {1, 1024}, {2, 1}}); }
   if (maxsteps > 1 && g.coin(25)) pick(2, {{0, 1}, {1, 1}, {maxsteps - 1, 1}});                      // nbInitialSteps < maxNbSteps
   else if (maxsteps == 1) pv.push_back({2, {0, 1}});
@@ -474,7 +521,7 @@ static std::string genPlaceP(SplitMix &g) {
 int main(int argc, char **argv) {
   std::string mode = argc > 1 ? argv[1] : "run";
   if (mode == "gen") {
-    std::string what = argv[2]; SplitMix g((uint64_t)atoll(argv[3]) * 7919 + (what == "asm" ? 1 : what == "solve" ? 2 : what == "fasm" ? 4 : what == "coin" ? 5 : what == "fcoin" ? 6 : what == "scoin" ? 7 : 3)); int count = atoi(argv[4]);
+    std::string what = argv[2]; SplitMix g((uint64_t)atoll(argv[3]) * 7919 + (what == "asm" ? 1 : what == "solve" ? 2 : what == "fasm" ? 4 : what == "coin" ? 5 : what == "fcoin" ? 6 : what == "scoin" ? 7 : what == "placecb" ? 8 : 3)); int count = atoi(argv[4]);
     if (what == "coin") {
       for (int i = 0; i < count; ++i) { int m = (int)g.uni(1, 4); bool dy = g.coin(60); printf("ASM %s\n", genCoin(g, dy, m, g.coin(35)).c_str()); }
     } else if (what == "fcoin") {
@@ -549,6 +596,18 @@ int main(int argc, char **argv) {
       }
     } else if (what == "placep") {
       for (int i = 0; i < count; ++i) printf("%s\n", genPlaceP(g).c_str());
+    } else if (what == "placecb") {
+      // the circuits and parameter tails of "placep" (at least 4 steps, gap / distance tolerance 0 in 75 %: the run goes on after the
+      // action), with 1..3 actions at callbacks 0..9: 45 % setCellWidth, 20 % setCellHeight, 15 % setNetWeights, 20 % read only
+      for (int i = 0; i < count; ++i) {
+        std::string body = genPlaceP(g, 75, 4).substr(6);
+        int na = (int)g.uni(1, 3); std::ostringstream a; a << "PLACECB " << na;
+        for (int j = 0; j < na; ++j) {
+          int sel = (int)g.uni(0, 99), kind = sel < 45 ? 1 : sel < 65 ? 2 : sel < 80 ? 3 : 0;
+          a << " " << g.uni(0, 9) << " " << kind << " " << g.uni(1, 1000000);
+        }
+        printf("%s %s\n", a.str().c_str(), body.c_str());
+      }
     } else {
       for (int i = 0; i < count; ++i) {
         int nrows = (int)g.uni(2, 5), rowh = 8, nc = (int)g.uni(4, 24);
@@ -581,6 +640,7 @@ int main(int argc, char **argv) {
       else if (tag == "FASM") runFasm(r);
       else if (tag == "SOLVEK") runSolveK(r);
       else if (tag == "PLACE") runPlace(r);
+      else if (tag == "PLACECB") runPlace(r, true);
       else printf("ERR unknown tag\n");
     } catch (std::exception &ex) { printf("THROW %s\n", ex.what()); }
     fflush(stdout);
